@@ -9,7 +9,7 @@ from .flow import Engine
 from .engines_spsc import parse_group
 
 # "0" = /repo as it is; after the proposed one-line fix of F-34-oneshot is applied to /repo set this to "1".
-CFG = "0"
+CFG = "1"
 
 ARITY = {"sd": 1, "cs": 1, "cl": 1, "ds": 1, "os": 1, "tr": 0, "cr": 0, "dr": 0, "or": 0, "mk": 1, "pr": 2, "xr": 1}
 
